@@ -227,7 +227,7 @@ theorem hbq (h : ReplArgs f a b q vq l A r t) : b ≠ q := by
   intro e
   apply h.hqt
   rw [← e, ← h.hb]
-  exact handle_mem_handles t
+  exact fs_handle_mem_handles t
 
 /-- The child of `q` that carries the handle `a` is `A`. -/
 theorem kid_a (h : ReplArgs f a b q vq l A r t) {k : HTree} (hk : k ∈ l ++ A :: r) (hka : k.handle = a) : k = A := by
